@@ -119,6 +119,10 @@ var zoo = []zooSnippet{
 		Method: "// @Method(POST)\n// @Route(/zoo%N)\n// @Body(b)\nfunc (c *ZooCtl) M%N(b Wide%N) ([2 * Half%N]string, error) {\n\treturn [2 * Half%N]string{}, nil\n}\n"},
 	{Name: "array-query-parameter",
 		Method: "// @Method(GET)\n// @Route(/zoo%N)\n// @Query(ids)\nfunc (c *ZooCtl) M%N(ids [3]int) error {\n\treturn nil\n}\n"},
+	{Name: "enum-constants-in-one-multi-name-spec", Decls: "type Hue%N string\n\nconst Red%N, Green%N Hue%N = \"red\", \"green\"\n\nconst (\n\tBlue%N, Teal%N Hue%N = \"blue\", \"teal\"\n\tGrey%N        Hue%N = \"grey\"\n)\n",
+		Method: "// @Method(GET)\n// @Route(/zoo%N)\n// @Query(h)\nfunc (c *ZooCtl) M%N(h Hue%N) (Hue%N, error) {\n\treturn h, nil\n}\n"},
+	{Name: "enum-constants-iota-and-expressions", Decls: "type Lvl%N int\n\nconst (\n\tLow%N Lvl%N = iota\n\tMid%N\n\tHigh%N = Lvl%N(10 + 2*3)\n\t_\n\tTop%N Lvl%N = 1 << 40\n)\n",
+		Method: "// @Method(GET)\n// @Route(/zoo%N)\n// @Query(l)\nfunc (c *ZooCtl) M%N(l Lvl%N) (Lvl%N, error) {\n\treturn l, nil\n}\n"},
 	{Name: "many-results",
 		Method: "// @Method(GET)\n// @Route(/zoo%N)\nfunc (c *ZooCtl) M%N() (int, string, bool, error) {\n\treturn 0, \"\", false, nil\n}\n"},
 }
